@@ -47,7 +47,14 @@ EXPLANATION = (
     "and diffed; the real DBOSRuntime + control loop + InternalDBOSAdapter run generated workflows against a stand-in `dbos` "
     "module under the virtual-time loop, a snapshot of the durable state is taken after every durable write and around every "
     "journal INSERT, each snapshot is recovered in a new process, every wait_for_next_task call of fresh and recovered runs is "
-    "diffed against the model, and monitors compare completion order, ticks, published events, journal and result."
+    "diffed against the model, and monitors compare completion order, ticks, published events, journal and result. The same "
+    "workflows also run behind the server's adapter chain (real ServerRuntimeDecorator / _ServerInternalRunAdapter, optionally the "
+    "EventInterceptorDecorator, real SqliteWorkflowStore on the system database file): every committed store row is one more stop "
+    "point (so every instant between a journal INSERT and the end of the publication of that completion's tick is tried), and a "
+    "monitor compares the STORED published events and the handler row after stop + recovery with the uninterrupted run and with what "
+    "the recovered control loop published, without consulting is_replaying(). is_replaying() itself is modelled (Adapter.isReplaying = "
+    "journal cursor; C27_last_replayed_tick_live, C27_replay_over_stays_over, C27_replay_flags) and queried after every wait call in "
+    "all three correspondence streams."
 )
 LEVEL_TEXT = ("partial: proof (Lean 4) of the journal/replay model + correspondence with the real TaskJournal, SqliteJournalCrud, "
               "wait_for_next_task and DBOSRuntime glue running against a STAND-IN dbos module; DBOS, PostgreSQL and SQLAlchemy are absent "
@@ -60,9 +67,15 @@ ASSUMPTIONS = [
     "what executes for real: all of task_journal.py; SqliteJournalCrud of crud.py; of runtime.py: DBOSRuntime.__init__/"
     "track_workflow/register/launch/_prepare_launch/_finalize_launch/_post_launch/run_migrations(sqlite)/run_workflow/"
     "get_internal_adapter/get_external_adapter/_get_sql_engine, InternalDBOSAdapter (all methods), ExternalDBOSAdapter.get_result/"
-    "send_event/_ensure_workflow_started, _durable_time; the real control loop, reducer and step wrappers. NOT executed "
-    "(modelled or out of scope): PostgresJournalCrud and every asyncpg path (SQL text only, extracted), executor leases, "
-    "DBOSWorkflowStore, build_server_runtime / idle release (C26, C36), destroy",
+    "send_event/_ensure_workflow_started, _durable_time, create_workflow_store + the DBOSWorkflowStore proxy (SQLite branch); of the "
+    "server package: ServerRuntimeDecorator (launch, run_workflow, run_workflow_handler, get_internal_adapter, _handle_status_update), "
+    "_ServerInternalRunAdapter, EventInterceptorDecorator, SqliteWorkflowStore (append_event, update, query, create_state_store); the real "
+    "control loop, reducer and step wrappers. NOT executed (modelled or out of scope): PostgresJournalCrud and every asyncpg path (SQL "
+    "text only, extracted), executor leases, TickPersistenceDecorator / DBOSIdleReleaseDecorator of build_server_runtime (C26, C36), destroy",
+    "stored events: an event may legitimately be stored twice (at-least-once) when the crashed process had stored it and its tick cannot be "
+    "known to be complete at the stop: the tick of the last journaled completion, and - as the code is - the ticks reduced before the "
+    "journal is first read (is_replaying() is False until the first wait_for_next_task call); these are counted (store_duplicates:*), not "
+    "reported; any other duplicate and any loss is a violation",
     "memoisation is a hypothesis of the theorems: a task's value is whatever the durable memo holds under its function id",
     "determinism of the control loop (`step` is a function of the observed completions) is the engine correspondence of C11",
     "step bodies are at-least-once: a step interrupted after ctx.send_event and before its output is recorded runs again on recovery "
@@ -78,7 +91,8 @@ TRUSTED_EXTRA = [
     "DBOS.workflow, DBOS.step (sync+async), start_workflow_async, retrieve_workflow_async, delete_workflow_async, send, send_async, "
     "recv_async, write_stream_async, read_stream_async, SetWorkflowID, WorkflowHandleAsync, _context.get_local_dbos_context, "
     "_dbos._get_dbos_instance (._sys_db.engine, ._app_db, ._config), _error.DBOSNonExistentWorkflowError/DBOSUnexpectedStepError",
-    "harness/dbos_standin/runs.py: processes, crash snapshots and recovery on the stand-in (inline executor, observers)",
+    "harness/dbos_standin/runs.py: processes, crash snapshots and recovery on the stand-in (inline executor, observers; server mode: "
+    "build_stack, observers on SqliteWorkflowStore.append_event/update and on _ServerInternalRunAdapter.write_to_event_stream)",
     "pyshims/asyncpg, pyshims/sqlalchemy: name-only import shims (Pool, Connection, Record, UniqueViolationError, create_pool, "
     "connect, pool.PoolConnectionProxy; engine.URL, engine.Engine)",
     "harness/gen/journal.py: AST extraction of journal call sites, write order, SQL and key formats",
@@ -688,7 +702,8 @@ def tick_windows(ref: Any, k: int) -> tuple[int, tuple[int, int]]:
     return first, (len(ref.ticks), len(ref.ticks))
 
 
-def check_store(ref: Any, snap: dict, rec: Any, case: dict, out: Outcome, *, det: bool = True, bound_duplicates: bool = True) -> None:
+def check_store(ref: Any, snap: dict, rec: Any, case: dict, out: Outcome, *, det: bool = True, bound_duplicates: bool = True,
+                uninterrupted: Any = None) -> None:
     """server mode, clean stop point, replay verified equal (tag ok): the published events as STORED in the workflow
     store (both process lives together).  Nothing here consults `is_replaying()`; what is expected is recomputed from the
     uninterrupted run `ref`, the stop point, and what the recovered control loop itself handed to the adapter.
@@ -697,15 +712,20 @@ def check_store(ref: Any, snap: dict, rec: Any, case: dict, out: Outcome, *, det
       (2) from that tick on, the recovered process stores exactly what its control loop publishes (the crashed process
           cannot be known to have published any of it);
       (3) the stored handler status/result is that of the run (and of the uninterrupted run, for deterministic workflows);
-      (4) an event of an earlier tick is not stored again - except the ticks reduced before the journal is first read."""
+      (4) an event of an earlier tick is not stored again - except the ticks reduced before the journal is first read.
+    `ref` is the process that was stopped (the uninterrupted run itself, or - second level - a recovered process whose own
+    schedule made the journal being replayed); `uninterrupted` is the uninterrupted run (default: `ref`)."""
+    uninterrupted = uninterrupted if uninterrupted is not None else ref
     k = len(snap["journal"])
     where = f"stop point {snap['kind']} after {snap['writes']} durable writes, journal length {k}, {snap.get('stored', '?')} events stored"
     first, (lo, hi) = tick_windows(ref, k)
     if k == 0:
         lo, hi = 0, first  # nothing journaled: the ticks before the first wait call are the fixed part, and all of it is "boundary"
-    if len(ref.store_appends) != len(ref.store_events):
-        out.violations.append(Violation("C27/harness_store_observer_incomplete",
-                                        f"{where}: {len(ref.store_appends)} appends seen, {len(ref.store_events)} rows", case))
+    if len(uninterrupted.store_appends) != len(uninterrupted.store_events) or \
+            [e for (_s, e) in uninterrupted.published] != [e for (_s, e) in uninterrupted.store_appends]:
+        out.violations.append(Violation("C27/uninterrupted_run_did_not_store_what_it_published",
+                                        f"{where}: {len(uninterrupted.published)} published, {len(uninterrupted.store_appends)} appends seen, "
+                                        f"{len(uninterrupted.store_events)} rows", case))
         return
 
     def window(stamp: int) -> str:
@@ -726,9 +746,9 @@ def check_store(ref: Any, snap: dict, rec: Any, case: dict, out: Outcome, *, det
         return t
 
     got = rec.store_events
-    terminal_ev = ref.store_events[-1] if ref.store_events and ref.handler is not None and ref.handler[0] == "completed" else None
-    # ---- (1) the fixed part, against the uninterrupted run
-    fixed = [(st, ev) for (st, ev) in ref.store_appends if st <= hi]
+    terminal_ev = ref.published[-1][1] if ref.published and ref.outcome[0] == "result" else None
+    # ---- (1) the fixed part: what the stopped process's control loop published up to the end of the last journaled tick
+    fixed = [(st, ev) for (st, ev) in ref.published if st <= hi]
     gm = _multiset(got)
     lost: list[tuple] = []
     for ev, n in _multiset([ev for (_st, ev) in fixed]).items():
@@ -755,14 +775,15 @@ def check_store(ref: Any, snap: dict, rec: Any, case: dict, out: Outcome, *, det
             f"C27/published_event_never_stored_after_recovery[tick={'+'.join(wins)},terminal_event={term}]",
             f"{where}: after the stop and the recovery the workflow store holds {len(got)} events of the run and lacks "
             f"{[short(e) + '@tick' + str(st) for (st, e) in lost]}"
-            + (f" which the uninterrupted run published (it stored {len(ref.store_events)})" if rule1 else " which the recovered control loop published")
+            + (f" which the stopped process published before the stop or would have published for its last journaled completion "
+               f"(uninterrupted run: {len(uninterrupted.store_events)} stored)" if rule1 else " which the recovered control loop published")
             + f"; recovered process stored {[short(e) for (_s, e) in rec.store_appends]}", case))
     elif not _is_subsequence([ev for (_st, ev) in fixed], got):
         out.violations.append(Violation("C27/stored_events_reordered_after_recovery",
                                         f"{where}: the store does not hold the {len(fixed)} events of the journaled part in the uninterrupted run's order", case))
     # ---- (3) handler status / result
     if rec.outcome[0] == "result":
-        want_h = ref.handler if det else ("completed", rec.handler[1] if rec.handler else None)
+        want_h = uninterrupted.handler if det else ("completed", rec.handler[1] if rec.handler else None)
         if rec.handler is None or rec.handler[0] != "completed" or (det and rec.handler != want_h):
             u, r = (want_h or ("<no row>", None)), (rec.handler or ("<no row>", None))
             out.violations.append(Violation(
@@ -772,9 +793,11 @@ def check_store(ref: Any, snap: dict, rec: Any, case: dict, out: Outcome, *, det
     again = [(st, ev) for (st, ev) in rec.store_appends if st <= lo]
     for st, ev in again:
         out.count("store_duplicates:" + window(st))
-    for st, ev in app:
-        if st <= hi and any(e == ev for (_s, e) in ref.store_appends[: int(snap.get("stored", 0))]):
-            out.count("store_duplicates:" + window(st))
+    fm = _multiset([e for (_s, e) in fixed])
+    for ev, n in fm.items():
+        if gm.get(ev, 0) > n:
+            for w_ in sorted({window(st) for (st, e) in fixed if e == ev}):
+                out.count("store_duplicates_events:" + w_)
     bad = [(st, ev) for (st, ev) in again if window(st) != "before_first_wait"]
     if bound_duplicates and bad and not lost:
         out.violations.append(Violation(
@@ -871,7 +894,7 @@ def run_case(spec: dict, seed: int, out: Outcome, env: Env, *, server: dict | No
                 if tag2 != "timer":
                     check_process(rec2, "twice recovered run", case2, out)
                 if server and tag == "ok" and tag2 == "ok" and ref.outcome[0] == "result":
-                    check_store(ref, x, rec2, case2, out, det=det)  # against the uninterrupted run
+                    check_store(rec, x, rec2, case2, out, det=det, uninterrupted=ref)
                 out.count("recovery2:" + tag2)
     # K3: every wait_for_next_task call of every process against the model
     flat = [l for (ls, _i, _c) in streams for l in ls]
@@ -949,7 +972,7 @@ def run(env: Env) -> Outcome:
 
     out = Outcome()
     out.rule = ("evaluation = one op of the journal object / one wait_for_next_task call diffed against the model, one fresh "
-                "DBOSRuntime run, or one recovery from a crash snapshot; non-trivial = a recovery from a distinct stop point "
+                "DBOSRuntime run (bare or behind the server adapter chain), or one recovery from a crash snapshot; non-trivial = a recovery from a distinct stop point "
                 "(spec, schedule, kind of durable write, number of durable writes) or a scripted wait call with a distinct "
                 "(mode, fallback, timeout, purge, several-done) signature")
     workdir = _tmpdir()
